@@ -466,7 +466,11 @@ func (s *Shard) SearchPoints(searchRequest models.SearchRequest) ([]models.Searc
 	if searchRequest.Limit == 0 {
 		searchRequest.Limit = len(finalResults)
 	}
-	finalResults = finalResults[min(searchRequest.Offset, len(finalResults)):min(searchRequest.Offset+searchRequest.Limit, len(finalResults))]
+	/* Offset + limit can overflow (the offset has no upper bound), so the end of
+	 * the page is computed from what is left after the offset. */
+	start := min(max(searchRequest.Offset, 0), len(finalResults))
+	end := start + min(max(searchRequest.Limit, 0), len(finalResults)-start)
+	finalResults = finalResults[start:end]
 	// ---------------------------
 	return finalResults, nil
 }
